@@ -283,6 +283,56 @@ def r4_apply(a, tier):
                          f'spec {stored!r}, colour {"on" if enabled else "off"}: output {out!r}, visible {stripped!r}; required visible '
                          f'{want_text!r} with the escapes applied once (the width of the spec must be measured on the text, not on text '
                          f'that already carries escape sequences)', m.loc)
+    # visual_len is the length of the text with the escapes removed
+    vl = a.p.func('tatsu.util.tty.visual_len')
+    seen_args: list = []
+    ev = _Ev({}, calls={'descape': lambda t: (seen_args.append(t), 'ab')[1], 'len': len})
+    try:
+        got = ev.call_function(vl.node, ['\x1b[1mab\x1b[0m'])
+    except Unsupported as e:
+        raise AnalysisError(f'cannot interpret visual_len: {e}') from e
+    ok = got == 2 and seen_args == ['\x1b[1mab\x1b[0m']
+    rep.add({'visual_len': 'of ESC[1m ab ESC[0m with descape -> ab', 'returns': got, 'ok': ok})
+    if not ok:
+        rep.fail(vl.qualname, 'visual-len', f'visual_len of a styled "ab" is {got!r} (descape called with {seen_args}); required: len(descape(text)) = 2', vl.loc)
+    # style(text, fmt=spec) carries the spec (and keeps a stored one when none is given)
+    cl = a.p.func(f'{STYLE}.__call__')
+    for given, stored in (('>6', None), ('>6', '<7'), (None, '<7'), (None, None)):
+        made: list = []
+        st = Obj(_fmt=stored)
+        object.__setattr__(st, '_methods', {})
+        ev = _Ev({}, calls={'type': lambda o: (lambda value, **kw: made.append((value, kw)) or 'NEW')})
+
+        def methods(recv, name, args_, kwargs, stored=stored):
+            if recv is st and name == '_kwattrs':
+                return {'value': 'old', 'fmt': stored, 'bold': True}
+            return NotImplemented
+        ev.methods = methods
+        try:
+            ev.call_function(cl.node, [st, 'txt'], {'fmt': given} if given is not None else {})
+        except Unsupported as e:
+            raise AnalysisError(f'cannot interpret Style.__call__: {e}') from e
+        want = given if given is not None else stored
+        ok = len(made) == 1 and made[0][0] == 'txt' and made[0][1].get('fmt') == want and made[0][1].get('bold') is True
+        rep.add({'call': f'style("txt", fmt={given!r}) on a style with stored spec {stored!r}', 'constructs': str(made), 'want_fmt': want, 'ok': ok})
+        if not ok:
+            rep.fail(cl.qualname, f'call:{given!r}:{stored!r}', f'style("txt", fmt={given!r}) on a style with stored spec {stored!r} constructs {made}; required: '
+                     f'the text "txt", the attributes of the style and fmt={want!r}', cl.loc)
+    # repr writes the escapes also when colour is off (it is the serialised form from_raw reads back)
+    rp = a.p.func(f'{STYLE}.__repr__')
+    st = _style_obj({'bold': True}, 2, -1, enabled=False, fmt=None)
+    object.__setattr__(st, 'value', 'ab')
+    object.__setattr__(st, '_methods', {'apply_style': asf.node})
+    ev = _with_helpers(a, _Ev({'RGB': RGBv}, calls={'tty_escape': lambda t: t, 'repr': repr}))
+    try:
+        out = ev.call_function(rp.node, [st])
+        ok = '[1;32m' in out.replace('\\x1b', '').replace('\x1b', '') or '1;32' in out
+    except Unsupported as e:
+        out, ok = f'not interpretable: {e}', None
+    rep.add({'repr': 'bold green "ab" with colour off', 'output': out, 'carries_the_attributes': ok})
+    if ok is False:
+        rep.fail(rp.qualname, 'repr-not-forced', f'repr of a bold green style with colour disabled is {out!r}: the attributes are not written, reading it back '
+                 f'gives a plain style', rp.loc)
     return rep
 
 
